@@ -27,8 +27,8 @@ type Program struct {
 	SSA      *ssa.Program
 	SSAPkgs  map[string]*ssa.Package
 	AllFuncs map[*ssa.Function]bool
-	cg       *callgraph.Graph
-	cgKind   string
+	cgCHA    *callgraph.Graph
+	cgVTA    *callgraph.Graph
 	NFuncs   int // teleport functions with bodies
 	NBlocks  int
 	// per-program analysis caches
@@ -36,6 +36,7 @@ type Program struct {
 	fas              map[*ssa.Function]*FA
 	storeWritesCache []*StoreWrite
 	storeReadsCache  []*StoreRead
+	inl              *inliner
 }
 
 // loadFailPanics: when set (seed loading), a load failure panics instead of exiting so that the caller can skip the seed.
@@ -106,6 +107,10 @@ func loadProgram(dir string, extraEnv []string, overlay map[string][]byte) *Prog
 		p.SSAPkgs[sp.Pkg.Path()] = sp
 	}
 	p.AllFuncs = ssautil.AllFunctions(prog)
+	// call graphs are built from the program as written; the normal form below only changes function bodies
+	p.cgCHA = cha.CallGraph(p.SSA)
+	p.cgVTA = vta.CallGraph(p.AllFuncs, p.cgCHA)
+	p.normalise()
 	for fn := range p.AllFuncs {
 		if fn.Pkg != nil && strings.HasPrefix(fn.Pkg.Pkg.Path(), modPath) && len(fn.Blocks) > 0 {
 			p.NFuncs++
@@ -117,16 +122,10 @@ func loadProgram(dir string, extraEnv []string, overlay map[string][]byte) *Prog
 
 // CallGraph builds (once) the call graph: "cha" or "vta".
 func (p *Program) CallGraph(kind string) *callgraph.Graph {
-	if p.cg != nil && p.cgKind == kind {
-		return p.cg
-	}
-	g := cha.CallGraph(p.SSA)
 	if kind == "vta" {
-		g = vta.CallGraph(p.AllFuncs, g)
+		return p.cgVTA
 	}
-	p.cg = g
-	p.cgKind = kind
-	return g
+	return p.cgCHA
 }
 
 // short abbreviates an import path to its last two elements (stable and readable).
